@@ -10,6 +10,7 @@ Arguments field_definition : simpl never.
 Arguments resolve_field : simpl never.
 Arguments complete_named : simpl never.
 Arguments collect_for : simpl never.
+Arguments complete_field : simpl never.
 
 (* [SelExt done sss ssm]: the selection list ssm is sss with additional
    occurrences of selections that are in [done] or occur earlier *)
@@ -201,19 +202,19 @@ Section ExecFull.
   Section Level.
     Variable sub_exec : str -> pv -> path -> list selection -> result.
     Hypothesis Hsub : forall tn v p sss ssm r,
-        SelExt [] sss ssm -> sub_exec tn v p ssm = Ok r ->
+        SelExt [] sss ssm -> sub_exec tn v p ssm = Ok r -> no_abort (snd r) ->
         exists es', SS tn v p sss (fst r) es' /\ errs_sim (snd r) es'.
 
     Lemma complete_items_full nodes' t (f : path -> pv -> result) :
-      (forall p x r, f p x = Ok r -> exists es', SC nodes' t p x (fst r) es' /\ errs_sim (snd r) es') ->
-      forall items p i rs es, complete_items f p i items = Ok (rs, es) ->
+      (forall p x r, f p x = Ok r -> no_abort (snd r) -> exists es', SC nodes' t p x (fst r) es' /\ errs_sim (snd r) es') ->
+      forall items p i rs es, complete_items f p i items = Ok (rs, es) -> no_abort es ->
                               exists es', SI nodes' t p i items rs es' /\ errs_sim es es'.
     Proof.
-      intros Hf. induction items as [|x items IH]; intros p i rs es H; simpl in H.
+      intros Hf. induction items as [|x items IH]; intros p i rs es H NA; simpl in H.
       - inversion H; subst. exists []. split; constructor.
       - apply obind_ok in H as [[r1 es1] [H1 H]]. apply obind_ok in H as [[rs' es2] [H2 H]].
-        inversion H; subst. simpl.
-        destruct (Hf _ _ _ H1) as [e1' [S1 E1]]. destruct (IH _ _ _ _ H2) as [e2' [S2 E2]].
+        inversion H; subst. simpl. apply no_abort_app in NA as [NA1 NA2].
+        destruct (Hf _ _ _ H1 NA1) as [e1' [S1 E1]]. destruct (IH _ _ _ _ H2 NA2) as [e2' [S2 E2]].
         exists (e1' ++ e2'). split; [constructor; assumption|apply errs_sim_app; assumption].
     Qed.
 
@@ -234,31 +235,31 @@ Section ExecFull.
 
       Lemma complete_named_full n p v r :
         v <> PNone ->
-        complete_named sch tyres sub_exec nodes n p v = Ok r ->
+        complete_named sch tyres sub_exec nodes n p v = Ok r -> no_abort (snd r) ->
         exists es', SC nodes' (RNamed n) p v (fst r) es' /\ errs_sim (snd r) es'.
       Proof.
         intros Hv. unfold complete_named.
         destruct (get_type sch n) as [[fs ifs|fs|ts|vals|k|]|] eqn:Eg; try discriminate.
-        - intros H. destruct (Hsub _ _ _ _ _ _ children_ext H) as [es' [S E]].
+        - intros H NA. destruct (Hsub _ _ _ _ _ _ children_ext H NA) as [es' [S E]].
           exists es'. split; [eapply SC_object; eassumption|exact E].
-        - intros H. apply obind_ok in H as [rt [Hrt H]].
-          destruct (Hsub _ _ _ _ _ _ children_ext H) as [es' [S E]]. exists es'. split; [|exact E].
+        - intros H NA. apply obind_ok in H as [rt [Hrt H]].
+          destruct (Hsub _ _ _ _ _ _ children_ext H NA) as [es' [S E]]. exists es'. split; [|exact E].
           eapply SC_abstract; [exact Hv|unfold is_abstract; rewrite Eg; reflexivity|apply resolve_type_spec; exact Hrt|exact S].
-        - intros H. apply obind_ok in H as [rt [Hrt H]].
-          destruct (Hsub _ _ _ _ _ _ children_ext H) as [es' [S E]]. exists es'. split; [|exact E].
+        - intros H NA. apply obind_ok in H as [rt [Hrt H]].
+          destruct (Hsub _ _ _ _ _ _ children_ext H NA) as [es' [S E]]. exists es'. split; [|exact E].
           eapply SC_abstract; [exact Hv|unfold is_abstract; rewrite Eg; reflexivity|apply resolve_type_spec; exact Hrt|exact S].
-        - destruct (hashable v); [|discriminate]. intros H. apply of_ser_ok in H as [Hs He].
+        - destruct (hashable v); [|discriminate]. intros H _. apply of_ser_ok in H as [Hs He].
           destruct r as [r es]; simpl in *; subst es. exists []. split; [eapply SC_enum; eassumption|constructor].
-        - intros H. apply of_ser_ok in H as [Hs He].
+        - intros H _. apply of_ser_ok in H as [Hs He].
           destruct r as [r es]; simpl in *; subst es. exists []. split; [eapply SC_scalar; eassumption|constructor].
       Qed.
 
       Lemma complete_value_full : forall t p v r,
-        complete_value sch tyres sub_exec nodes t p v = Ok r ->
+        complete_value sch tyres sub_exec nodes t p v = Ok r -> no_abort (snd r) ->
         exists es', SC nodes' t p v (fst r) es' /\ errs_sim (snd r) es'.
       Proof.
-        induction t as [n|t IH|t IH]; intros p v r H; simpl in H.
-        - destruct v; try (apply complete_named_full; [discriminate|exact H]).
+        induction t as [n|t IH|t IH]; intros p v r H NA; simpl in H.
+        - destruct v; try (apply complete_named_full; [discriminate|exact H|exact NA]).
           inversion H; subst. exists []. split; [apply SC_null_named|constructor].
         - destruct (match v with PNone => true | _ => false end) eqn:Ev.
           { destruct v; try discriminate. inversion H; subst. exists []. split; [apply SC_null_list|constructor]. }
@@ -269,11 +270,13 @@ Section ExecFull.
                        end = Ok r) by (destruct v; try discriminate; exact H).
           assert (Hv : v <> PNone) by (intros ->; discriminate).
           destruct (iter_items v) as [items|] eqn:Ei; [|discriminate].
-          apply obind_ok in H' as [[rs es] [Hc H']]. inversion H'; subst; simpl.
-          destruct (complete_items_full nodes' t _ (fun p x r => IH p x r) _ _ _ _ _ Hc) as [es' [S E]].
+          apply obind_ok in H' as [[rs es] [Hc H']]. inversion H'; subst; simpl. simpl in NA.
+          destruct (complete_items_full nodes' t _ (fun p x r => IH p x r) _ _ _ _ _ Hc NA) as [es' [S E]].
           exists es'. split; [eapply SC_list; eassumption|exact E].
         - apply obind_ok in H as [[r1 es1] [H1 H]]. simpl in H.
-          destruct (IH _ _ _ H1) as [e1' [S1 E1]]. simpl in S1, E1.
+          assert (NA1 : no_abort es1).
+          { destruct r1; inversion H; subst; simpl in NA; try exact NA; apply no_abort_app in NA; tauto. }
+          destruct (IH _ _ _ H1 NA1) as [e1' [S1 E1]]. simpl in S1, E1.
           destruct r1; inversion H; subst; simpl;
             try (exists e1'; split; [apply SC_nonnull; [exact S1|discriminate]|exact E1]).
           exists (e1' ++ [Err p (map sel_loc nodes') ENonNull]). split; [apply SC_nonnull_null; exact S1|].
@@ -281,9 +284,21 @@ Section ExecFull.
       Qed.
     End Nodes.
 
+    Lemma complete_field_full nodes nodes' t p v r :
+      Ext [] nodes' nodes ->
+      complete_field sch tyres sub_exec nodes t p v = Ok r -> no_abort (snd r) ->
+      exists es', SC nodes' t p v (fst r) es' /\ errs_sim (snd r) es'.
+    Proof.
+      intros Hext. unfold complete_field.
+      destruct (complete_value sch tyres sub_exec nodes t p v) as [c| |k1 q1|k1] eqn:E; try discriminate.
+      - intros H NA; inversion H; subst. eapply complete_value_full; eassumption.
+      - destruct (Nat.eqb k1 REJ_COERCION); [|discriminate]. intros H NA; inversion H; subst. simpl in NA.
+        exfalso. apply no_abort_app in NA as [_ NA]. inversion NA as [|? ? Hx _]; subst. discriminate Hx.
+    Qed.
+
     Lemma resolve_field_full tname parent k fd nodes nodes' p r :
       Ext [] nodes' nodes ->
-      resolve_field sch coerce_args world tyres sub_exec tname parent k fd nodes p = Ok r ->
+      resolve_field sch coerce_args world tyres sub_exec tname parent k fd nodes p = Ok r -> no_abort (snd r) ->
       exists es', SF tname parent k fd nodes' p (fst r) es' /\ errs_sim (snd r) es'.
     Proof.
       intros Hext. unfold resolve_field. destruct nodes as [|node nodes]; [discriminate|].
@@ -293,25 +308,25 @@ Section ExecFull.
       destruct (coerce_args fd node) as [args| |c q|] eqn:Ec; try discriminate.
       - destruct k; try discriminate.
         + destruct (world p parent tname (f_name fd) args) eqn:Ew; try discriminate.
-          * intros H. destruct (complete_value_full _ _ Hext _ _ _ _ H) as [es' [S E]].
+          * intros H NA. destruct (complete_field_full _ _ _ _ _ _ Hext H NA) as [es' [S E]].
             exists es'. split; [|exact E]. eapply SFd_value; [exact Ec| |exact S]. simpl. rewrite Ew. reflexivity.
-          * intros H. destruct (complete_value_full _ _ Hext _ _ _ _ H) as [es' [S E]].
+          * intros H NA. destruct (complete_field_full _ _ _ _ _ _ Hext H NA) as [es' [S E]].
             exists es'. split; [|exact E]. eapply SFd_value; [exact Ec| |exact S]. simpl. rewrite Ew. reflexivity.
-          * intros H; inversion H; subst. simpl. eexists. split; [|apply errs_sim_refl].
+          * intros H _; inversion H; subst. simpl. eexists. split; [|apply errs_sim_refl].
             eapply SFd_error; [exact Ec|]. simpl. rewrite Ew. reflexivity.
-        + intros H. destruct (complete_value_full _ _ Hext _ _ _ _ H) as [es' [S E]].
+        + intros H NA. destruct (complete_field_full _ _ _ _ _ _ Hext H NA) as [es' [S E]].
           exists es'. split; [|exact E]. eapply SFd_value; [exact Ec| |exact S]. reflexivity.
-      - intros H; inversion H; subst. simpl. eexists. split; [|apply errs_sim_refl].
+      - intros H _; inversion H; subst. simpl. eexists. split; [|apply errs_sim_refl].
         eapply SFd_coercion. exact Ec.
     Qed.
 
     Lemma exec_groups_full tname parent p : forall g g' kvs es,
       Forall2 (fun a b => fst a = fst b /\ Ext [] (snd b) (snd a)) g g' ->
-      exec_groups sch coerce_args world tyres sub_exec tname parent p g = Ok (kvs, es) ->
+      exec_groups sch coerce_args world tyres sub_exec tname parent p g = Ok (kvs, es) -> no_abort es ->
       exists es', SG tname parent p g' kvs es' /\ errs_sim es es'.
     Proof.
       intros g g' kvs es F. revert kvs es.
-      induction F as [|[key nodes] [key' nodes'] g g' [Hk Hext] F IH]; intros kvs es H; simpl in H.
+      induction F as [|[key nodes] [key' nodes'] g g' [Hk Hext] F IH]; intros kvs es H NA; simpl in H.
       - inversion H; subst. exists []. split; constructor.
       - simpl in Hk, Hext. subst key'. destruct nodes as [|node nodes]; [discriminate|].
         assert (Hn : exists rest', nodes' = node :: rest').
@@ -319,36 +334,38 @@ Section ExecFull.
         destruct Hn as [rest' ->].
         destruct (field_definition sch tname (sel_name node)) as [[[k fd]|]| | |] eqn:Ed; simpl in H; try discriminate.
         + apply obind_ok in H as [[r1 es1] [H1 H]]. apply obind_ok in H as [[kvs' es2] [H2 H]].
-          inversion H; subst.
-          destruct (resolve_field_full _ _ _ _ _ _ _ _ Hext H1) as [e1' [S1 E1]].
-          destruct (IH _ _ H2) as [e2' [S2 E2]].
+          inversion H; subst. apply no_abort_app in NA as [NA1 NA2].
+          destruct (resolve_field_full _ _ _ _ _ _ _ _ Hext H1 NA1) as [e1' [S1 E1]].
+          destruct (IH _ _ H2 NA2) as [e2' [S2 E2]].
           exists (e1' ++ e2'). split; [|apply errs_sim_app; assumption].
           eapply SG_cons; [apply field_definition_spec; exact Ed|exact S1|exact S2].
-        + destruct (IH _ _ H) as [e' [S E]]. exists e'. split; [|exact E].
+        + destruct (IH _ _ H NA) as [e' [S E]]. exists e'. split; [|exact E].
           apply SG_skip; [apply field_definition_undef; exact Ed|exact S].
     Qed.
   End Level.
 
   Lemma exec_sel_full : forall fuel tname v p sss ssm r,
     SelExt [] sss ssm ->
-    exec_sel sch frags vs coerce_args world tyres cfuel fuel tname v p ssm = Ok r ->
+    exec_sel sch frags vs coerce_args world tyres cfuel fuel tname v p ssm = Ok r -> no_abort (snd r) ->
     exists es', SS tname v p sss (fst r) es' /\ errs_sim (snd r) es'.
   Proof.
-    induction fuel as [|fuel IH]; intros tname v p sss ssm r Hse H; simpl in H; [discriminate|].
+    induction fuel as [|fuel IH]; intros tname v p sss ssm r Hse H NA; simpl in H; [discriminate|].
     apply obind_ok in H as [g [Hg H]]. apply obind_ok in H as [[kvs es] [He H]].
     inversion H; subst; simpl. unfold collect_for in Hg.
     destruct (collect_full_ext (applies sch tname) frags vs rank Hacyc _ _ _ _ _ Hse Hg) as [g' [Hc F]].
-    destruct (exec_groups_full (exec_sel sch frags vs coerce_args world tyres cfuel fuel) IH _ _ _ _ _ _ _ F He)
+    simpl in NA.
+    destruct (exec_groups_full (exec_sel sch frags vs coerce_args world tyres cfuel fuel) IH _ _ _ _ _ _ _ F He NA)
       as [es' [S E]].
     exists es'. split; [eapply SS_sel; [exact Hc|exact S]|exact E].
   Qed.
 
   Theorem exec_eq_spec_full fuel tname v p sels r :
     exec_sel sch frags vs coerce_args world tyres cfuel fuel tname v p sels = Ok r ->
+    no_abort (snd r) ->
     exists es',
       SSel sch coerce_args world tyres (fun tn ss g => SCollect (applies sch tn) frags vs ss g)
            tname v p sels (fst r) es' /\
       Forall2 (fun e e' => e_path e = e_path e' /\ e_kind e = e_kind e' /\
                            incl (e_locs e) (e_locs e') /\ incl (e_locs e') (e_locs e)) (snd r) es'.
-  Proof. intros H. exact (exec_sel_full fuel tname v p sels sels r (SelExt_refl _ _) H). Qed.
+  Proof. intros H NA. exact (exec_sel_full fuel tname v p sels sels r (SelExt_refl _ _) H NA). Qed.
 End ExecFull.
